@@ -2,7 +2,7 @@
 //! the real crate through the public API.
 
 use crate::alloc;
-use crate::elems::{self, Elem, Hint, ItemObs, Obs, Plain, Probe};
+use crate::elems::{self, Elem, Hint, ItemObs, Obs, Plain, Probe, Stamp};
 use crate::sim::{self, SimAbort, SimCfg, SimOutcome};
 use orx_concurrent_iter::*;
 use serde::{Deserialize, Serialize};
@@ -39,10 +39,14 @@ pub enum Kind {
     PlainSlice,
     /// `ConIterOfIter` over `slice::Iter<Plain>`: the underlying iterator of `CopiedIter`
     PlainIter,
+    /// `Vec<Stamp>::con_iter().cloned()`: element type that is Clone, not Copy, without destructor
+    ClonedStampSlice,
+    /// `Vec<Stamp>::con_iter()`: its underlying iterator
+    StampSlice,
 }
 
 impl Kind {
-    pub const ALL: [Kind; 16] = [
+    pub const ALL: [Kind; 18] = [
         Kind::Slice,
         Kind::SliceRef,
         Kind::VecRef,
@@ -59,6 +63,8 @@ impl Kind {
         Kind::CopiedIter,
         Kind::PlainSlice,
         Kind::PlainIter,
+        Kind::ClonedStampSlice,
+        Kind::StampSlice,
     ];
     pub fn is_iter(self) -> bool {
         matches!(
@@ -90,12 +96,17 @@ impl Kind {
                 | Kind::IterRef
                 | Kind::PlainSlice
                 | Kind::PlainIter
+                | Kind::StampSlice
         )
     }
     pub fn is_adaptor(self) -> bool {
         matches!(
             self,
-            Kind::ClonedSlice | Kind::ClonedIter | Kind::CopiedSlice | Kind::CopiedIter
+            Kind::ClonedSlice
+                | Kind::ClonedIter
+                | Kind::CopiedSlice
+                | Kind::CopiedIter
+                | Kind::ClonedStampSlice
         )
     }
     /// the reference-yielding iterator an adaptor kind wraps (C13 twin)
@@ -105,11 +116,15 @@ impl Kind {
             Kind::ClonedIter => Some(Kind::IterRef),
             Kind::CopiedSlice => Some(Kind::PlainSlice),
             Kind::CopiedIter => Some(Kind::PlainIter),
+            Kind::ClonedStampSlice => Some(Kind::StampSlice),
             _ => None,
         }
     }
     pub fn is_cloned(self) -> bool {
-        matches!(self, Kind::ClonedSlice | Kind::ClonedIter)
+        matches!(
+            self,
+            Kind::ClonedSlice | Kind::ClonedIter | Kind::ClonedStampSlice
+        )
     }
     pub fn array_lens() -> &'static [usize] {
         &[0, 1, 2, 3, 4, 5, 6, 8, 12]
@@ -190,6 +205,10 @@ pub struct RunCfg {
     pub threads: Vec<Vec<Op>>,
     pub terminal: Terminal,
     pub panic: Option<(PanicSite, u32)>,
+    /// 0: chunks are consumed with `next()`; s > 0: consumption of a chunk starts with `nth(s)`
+    /// (skipping s elements, which the chunk iterator must dispose of itself)
+    #[serde(default)]
+    pub consume_nth: usize,
     pub sim: SimCfg,
 }
 
@@ -258,6 +277,10 @@ pub enum Res {
         exhausted: bool,
         /// announced length was impossible; the chunk was forgotten, not iterated
         impossible: bool,
+        /// number of leading elements the caller skipped with one `nth(skipped)` call before the
+        /// first observed element (`items[0]` is then the element at offset `skipped`)
+        #[serde(default)]
+        skipped: usize,
     },
     End,
     Len(Option<usize>),
@@ -354,6 +377,7 @@ pub struct Ctx {
     pub closure_panic_at: Option<u32>,
     pub kind: Kind,
     pub len: usize,
+    pub consume_nth: usize,
 }
 
 impl Ctx {
@@ -380,11 +404,13 @@ fn hash_res(r: &Res, h: &mut Vec<u64>) {
             begin,
             announced,
             items,
+            skipped,
             ..
         } => {
             h.push(2);
             h.push(*begin as u64);
             h.push(*announced as u64);
+            h.push(*skipped as u64);
             for i in items {
                 h.push(i.raw);
             }
@@ -477,6 +503,7 @@ fn consume_chunk<T: Obs, I: ExactSizeIterator<Item = T>>(
             lens: vec![],
             exhausted: false,
             impossible: true,
+            skipped: 0,
         };
     }
     let mut items = Vec::new();
@@ -486,12 +513,24 @@ fn consume_chunk<T: Obs, I: ExactSizeIterator<Item = T>>(
     // the harness never consumes more than a few thousand elements of one chunk (C16: a chunk
     // of a range may legitimately announce 2^63 elements)
     let k = k.min(4096);
+    // style "nth": the first element taken is values.nth(s); the s skipped elements are never
+    // seen by the caller and must be disposed of by the chunk iterator
+    let mut skipped = 0usize;
+    let mut first = true;
     loop {
         if items.len() >= k {
             break;
         }
         let l = values.len();
-        match values.next() {
+        let use_nth = first && ctx.consume_nth > 0 && announced > ctx.consume_nth && k > 0;
+        first = false;
+        let nxt = if use_nth {
+            skipped = ctx.consume_nth;
+            values.nth(ctx.consume_nth)
+        } else {
+            values.next()
+        };
+        match nxt {
             Some(x) => {
                 let o = x.obs();
                 let _p = alloc::pause();
@@ -515,6 +554,7 @@ fn consume_chunk<T: Obs, I: ExactSizeIterator<Item = T>>(
         lens,
         exhausted,
         impossible: false,
+        skipped,
     }
 }
 
@@ -967,6 +1007,7 @@ where
         },
         kind: cfg.kind,
         len: cfg.len,
+        consume_nth: cfg.consume_nth,
     };
     sim::begin_run(cfg.sim.clone());
     let n = cfg.threads.len();
@@ -1270,6 +1311,27 @@ pub fn execute(cfg: &RunCfg, run_no: u32) -> RunRecord {
             rec.elem_size = std::mem::size_of::<Plain>();
             let o = drive(cfg, data.con_iter());
             rec.source_intact = plain_intact(&data, seed);
+            o
+        }
+        Kind::ClonedStampSlice | Kind::StampSlice => {
+            let data: Vec<Stamp> = (0..n as u32)
+                .map(|i| Stamp {
+                    id: i,
+                    run: run_no,
+                    gen: 0,
+                    payload: elems::payload_of(seed, i as u64),
+                })
+                .collect();
+            rec.base_addr = data.as_ptr() as usize;
+            rec.elem_size = std::mem::size_of::<Stamp>();
+            let o = if cfg.kind == Kind::StampSlice {
+                drive(cfg, data.con_iter())
+            } else {
+                drive(cfg, data.con_iter().cloned())
+            };
+            rec.source_intact = data.iter().enumerate().all(|(i, e)| {
+                e.id as usize == i && e.gen == 0 && e.payload == elems::payload_of(seed, i as u64)
+            });
             o
         }
         Kind::PlainIter => {
